@@ -14,10 +14,17 @@ World of one execution (rebuilt from scratch every time, ``random.seed(0)`` firs
 all sharing one ``_HttpConnImpl``; the network is a recorder (``opener``); ``ak.conn_http.threading`` is
 the scheduler's shim, so the real ``with self._reqid_generator_guard`` blocks *in the scheduler*.
 A sequential warm-up request before and a sequential final request after the threads pin the counter.
+"fresh" scenarios have *no* warm-up: both threads' first requests are the first use ever of a brand-new
+``_HttpConnImpl`` (lazily created synchronisation objects are then created inside the race; the shim's
+``Lock()`` works at any time from any thread and every call returns a distinct lock known to the
+scheduler).  "shared headers" scenarios pass the *same* non-empty caller-owned headers dict (without
+``X-Request-ID``) to every request, sequentially within a thread and from both threads: an id the
+library leaks into the caller's dict would be re-sent as if the caller had supplied it.
 
 Oracle (from the statement): every request is sent exactly once; generated ids pairwise distinct;
 their sequence numbers are exactly warm+1 … warm+n (and the final request gets warm+n+1): no gap, no
-repeat; an id supplied by the caller arrives unchanged and consumes no number; no deadlock, no
+repeat; an id supplied by the caller arrives unchanged and consumes no number (an id counts as caller
+supplied only if the caller put it into the headers before the first request); no deadlock, no
 exception.  The 4-hex connection tag and the id layout are not compared (the number is read from the
 last dash-separated group of the id).
 """
@@ -53,11 +60,14 @@ ASSUMPTIONS = [
     "threads interleave at bytecode boundaries (CPython with GIL); each bytecode is atomic",
     "the lock obtained from threading.Lock() provides mutual exclusion; no fairness is assumed",
     "caller-supplied ids do not imitate the generated format",
-    "connections are built before the concurrent phase (construction is not raced)",
+    "connection objects are constructed before the concurrent phase (constructors are not raced); whatever "
+    "they create lazily on first use is raced in the 'fresh' scenarios",
 ]
 REQUIRED_FEATURES = ["threads:2", "preemptions:0", "preemptions:1", "preemptions:2", "via:base", "via:bauth",
                      "via:prefixed", "via:clone-wrapper", "caller-id", "two-requests-in-one-thread",
-                     "points:full-do_request", "replayed-identically"]
+                     "points:full-do_request", "replayed-identically", "fresh-connection-first-use",
+                     "shared-caller-headers-dict", "shared-caller-headers-dict:two-threads",
+                     "shared-caller-headers-dict:same-thread"]
 
 
 def required_features(tier):
@@ -65,37 +75,45 @@ def required_features(tier):
 
 
 # --------------------------------------------------------------------------- scenarios
-def _r(via, own=None):
-    return {"via": via, "own_id": own}
+def _r(via, own=None, hdr=None):
+    """hdr="shared": the request passes the execution-wide caller-owned headers dict (no X-Request-ID)."""
+    return {"via": via, "own_id": own, "hdr": hdr}
 
 
 OWN_ID = "caller-supplied-id-7"
 
+SH = "shared"
 SCENARIOS = {
-    # name: (threads, points mode)
-    "2t-base|bauth": ([[_r("base")], [_r("bauth")]], "sparse"),
-    "2t-prefixed|clone": ([[_r("prefixed")], [_r("clone")]], "sparse"),
-    "2t-ownid+bauth|clone": ([[_r("base", OWN_ID), _r("bauth")], [_r("clone")]], "sparse"),
-    "2t-base+prefixed|bauth": ([[_r("base"), _r("prefixed")], [_r("bauth")]], "sparse"),
-    "2t-full-base|clone": ([[_r("base")], [_r("clone")]], "full"),
-    "2t-2x2": ([[_r("base"), _r("clone")], [_r("bauth"), _r("prefixed")]], "sparse"),
-    "3t-base|bauth|clone": ([[_r("base")], [_r("bauth")], [_r("clone")]], "sparse"),
-    "3t-ownid|prefixed|clone": ([[_r("base", OWN_ID)], [_r("prefixed")], [_r("clone")]], "sparse"),
+    # name: (threads, points mode, warm-up request before the threads?)
+    "2t-base|bauth": ([[_r("base")], [_r("bauth")]], "sparse", True),
+    "2t-prefixed|clone": ([[_r("prefixed")], [_r("clone")]], "sparse", True),
+    "2t-fresh-base|clone": ([[_r("base")], [_r("clone")]], "sparse", False),
+    "2t-ownid+bauth|clone": ([[_r("base", OWN_ID), _r("bauth")], [_r("clone")]], "sparse", True),
+    "2t-sharedhdr-base+prefixed|bauth": ([[_r("base", hdr=SH), _r("prefixed", hdr=SH)], [_r("bauth", hdr=SH)]],
+                                         "sparse", True),
+    "2t-full-base|clone": ([[_r("base")], [_r("clone")]], "full", True),
+    "2t-full-fresh-sharedhdr-bauth|base": ([[_r("bauth", hdr=SH)], [_r("base", hdr=SH)]], "full", False),
+    "2t-2x2": ([[_r("base"), _r("clone", hdr=SH)], [_r("bauth", hdr=SH), _r("prefixed")]], "sparse", True),
+    "3t-base|bauth|clone": ([[_r("base")], [_r("bauth")], [_r("clone")]], "sparse", True),
+    "3t-fresh-ownid|prefixed|clone": ([[_r("base", OWN_ID)], [_r("prefixed", hdr=SH)], [_r("clone", hdr=SH)]],
+                                      "sparse", False),
 }
 
 PLAN = {
     # tier: [(scenario, preemption bound, shards per start thread)]
-    "quick": [("2t-base|bauth", 2, 6), ("2t-prefixed|clone", 2, 6), ("2t-ownid+bauth|clone", 2, 8),
-              ("2t-base+prefixed|bauth", 2, 8), ("2t-full-base|clone", 1, 4)],
-    "thorough": [("2t-base|bauth", 3, 12), ("2t-prefixed|clone", 3, 12), ("2t-ownid+bauth|clone", 3, 16),
-                 ("2t-base+prefixed|bauth", 3, 16), ("2t-2x2", 2, 8), ("2t-full-base|clone", 2, 16),
-                 ("3t-base|bauth|clone", 2, 8), ("3t-ownid|prefixed|clone", 2, 8)],
+    "quick": [("2t-base|bauth", 2, 6), ("2t-prefixed|clone", 2, 6), ("2t-fresh-base|clone", 2, 6),
+              ("2t-ownid+bauth|clone", 2, 8), ("2t-sharedhdr-base+prefixed|bauth", 2, 8),
+              ("2t-full-base|clone", 1, 4), ("2t-full-fresh-sharedhdr-bauth|base", 1, 4)],
+    "thorough": [("2t-base|bauth", 3, 12), ("2t-prefixed|clone", 3, 12), ("2t-fresh-base|clone", 3, 12),
+                 ("2t-ownid+bauth|clone", 3, 16), ("2t-sharedhdr-base+prefixed|bauth", 3, 16), ("2t-2x2", 2, 8),
+                 ("2t-full-base|clone", 2, 16), ("2t-full-fresh-sharedhdr-bauth|base", 2, 16),
+                 ("3t-base|bauth|clone", 2, 8), ("3t-fresh-ownid|prefixed|clone", 2, 8)],
 }
 
 
 def bounds(tier):
     return {"scenarios": {name: {"threads": SCENARIOS[name][0], "points": SCENARIOS[name][1],
-                                 "max_preemptions": b}
+                                 "warm_up_request": SCENARIOS[name][2], "max_preemptions": b}
                           for name, b, _ in PLAN[tier]},
             "scheduling_points": "sparse: every bytecode of every _HttpConnImpl method except do_request/"
                                  "logging/constructor + every attribute access on self in do_request + "
@@ -211,11 +229,15 @@ def _build_world():
     impl = base.conn_impl
     impl.opener = rec
     shared = all(x.conn_impl is impl for x in (bauth, prefixed, clone.http_conn))
-    return {"base": base, "bauth": bauth, "prefixed": prefixed, "clone": clone}, rec, shared
+    return {"base": base, "bauth": bauth, "prefixed": prefixed, "clone": clone,
+            "shared_headers": {"X-Trace": "trace-1"}}, rec, shared
 
 
 def _do(world, req, token):
     headers = {"X-Request-ID": req["own_id"]} if req["own_id"] is not None else None
+    if req.get("hdr") == "shared":
+        assert headers is None
+        headers = world["shared_headers"]       # one caller-owned dict object for the whole execution
     via = req["via"]
     path = "/" + token
     if via == "base":
@@ -255,10 +277,11 @@ def _number(rid):
     return int(digits) if digits else None
 
 
-def execute(threads, deviations):
+def execute(threads, deviations, warm=True):
     """One controlled execution.  Returns (Execution, observation dict)."""
     world, rec, shared = _build_world()
-    _do(world, _r("base"), "warm")
+    if warm:
+        _do(world, _r("base"), "warm")
 
     def body(t):
         def run():
@@ -282,7 +305,7 @@ def execute(threads, deviations):
     return ex, obs
 
 
-def judge(threads, obs):
+def judge(threads, obs, warm=True):
     """-> (violation or None, outcome label).  violation = (signature, message, observed, expected)."""
     if obs["deadlock"]:
         return ("deadlock", "threads wait for each other forever", obs["deadlock"], "all requests complete"), "deadlock"
@@ -292,8 +315,8 @@ def judge(threads, obs):
         return ("request-raised-" + e.split(":")[0], "a request raised under this schedule", e,
                 "request completes"), "raised"
     sent = obs["sent"]
-    tokens = [("warm", None)] + [(f"t{t}r{k}", rq["own_id"]) for t, reqs in enumerate(threads)
-                                 for k, rq in enumerate(reqs)] + [("final", None)]
+    tokens = ([("warm", None)] if warm else []) + [(f"t{t}r{k}", rq["own_id"]) for t, reqs in enumerate(threads)
+                                                   for k, rq in enumerate(reqs)] + [("final", None)]
     for tok, _ in tokens:
         if len(sent.get(tok, [])) != 1:
             return ("request-not-sent-once", f"request {tok} reached the opener {len(sent.get(tok, []))} times",
@@ -310,7 +333,8 @@ def judge(threads, obs):
             gen.append((tok, rid))
     ids = [rid for _, rid in gen]
     nums = {tok: _number(rid) for tok, rid in gen}
-    w = nums["warm"]
+    known = [v for v in nums.values() if v is not None]
+    w = nums["warm"] if warm else (min(known) - 1 if known else None)
     label = "|".join(f"T{t}:" + ",".join("own" if rq["own_id"] is not None
                                          else str(None if nums[f't{t}r{k}'] is None or w is None
                                                   else nums[f't{t}r{k}'] - w)
@@ -325,8 +349,8 @@ def judge(threads, obs):
     vals = sorted(nums.values())
     if len(set(vals)) != len(vals):
         return ("number-repeated", "two ids carry the same sequence number", dict(gen), "distinct numbers"), label
-    want = list(range(w, w + len(vals)))
-    if vals != want or nums["final"] != want[-1]:
+    want = list(range(vals[0], vals[0] + len(vals)))
+    if vals != want or nums["final"] != want[-1] or (warm and nums["warm"] != want[0]):
         return ("gap-in-numbers", "sequence numbers are not handed out consecutively "
                      "(a number was skipped or consumed by a request that did not use it)",
                 {"numbers": nums}, {"numbers": f"{want[0]}..{want[-1]} with final={want[-1]}"}), label
@@ -337,8 +361,17 @@ def judge(threads, obs):
 
 
 # --------------------------------------------------------------------------- exploration
-def _features(name, threads, mode):
+def _features(name, threads, mode, warm=True):
     f = {f"threads:{len(threads)}"}
+    if not warm:
+        f.add("fresh-connection-first-use")
+    nsh = [sum(1 for rq in reqs if rq.get("hdr") == "shared") for reqs in threads]
+    if sum(nsh) >= 2:
+        f.add("shared-caller-headers-dict")
+        if sum(1 for n in nsh if n) >= 2:
+            f.add("shared-caller-headers-dict:two-threads")
+        if max(nsh) >= 2:
+            f.add("shared-caller-headers-dict:same-thread")
     for reqs in threads:
         if len(reqs) > 1:
             f.add("two-requests-in-one-thread")
@@ -353,18 +386,18 @@ def _features(name, threads, mode):
 
 
 def _case(name, ex):
-    threads, mode = SCENARIOS[name]
-    return {"scenario": name, "threads": threads, "points": mode, "schedule": ex.deviations}
+    threads, mode, warm = SCENARIOS[name]
+    return {"scenario": name, "threads": threads, "points": mode, "warm": warm, "schedule": ex.deviations}
 
 
 def _visit_factory(name, acc, seed):
-    threads, mode = SCENARIOS[name]
-    base_feats = _features(name, threads, mode)
+    threads, mode, warm = SCENARIOS[name]
+    base_feats = _features(name, threads, mode, warm)
     counter = [0]
 
     def visit(ex):
         obs = ex.obs
-        v, label = judge(threads, obs)
+        v, label = judge(threads, obs, warm)
         feats = list(base_feats) + [f"preemptions:{ex.preemptions}"]
         if ex.preempt_in_cs:
             feats.append("preempt-in-critical-region")
@@ -379,7 +412,7 @@ def _visit_factory(name, acc, seed):
         counter[0] += 1
         check_replay = v is not None or (counter[0] + seed) % 40 == 0
         if check_replay:
-            ex2, obs2 = execute(threads, ex.deviations)
+            ex2, obs2 = execute(threads, ex.deviations, warm)
             if ex2.fingerprint() != ex.fingerprint() or obs2 != obs:
                 raise sched.HarnessError(f"replay of schedule {ex.deviations} of {name} diverged")
             acc.feat("replayed-identically")
@@ -395,12 +428,12 @@ def _visit_factory(name, acc, seed):
 
 def run_shard(shard, tier, seed, acc):
     name, bound, start, r, m = shard
-    threads, mode = SCENARIOS[name]
+    threads, mode, warm = SCENARIOS[name]
     rng = random.Random(seed * 7919 + sum(map(ord, name)) * 31 + start * 7 + r) if seed else None
     visit = _visit_factory(name, acc, seed)
     with _Harness(mode):
         def run(dev):
-            ex, obs = execute(threads, dev)
+            ex, obs = execute(threads, dev, warm)
             ex.obs = obs
             return ex
         root = [[0, start]] if start != 0 else []
@@ -412,15 +445,15 @@ def run_shard(shard, tier, seed, acc):
 
 
 def replay(case, acc):
-    threads, mode = case["threads"], case["points"]
+    threads, mode, warm = case["threads"], case["points"], case.get("warm", True)
     with _Harness(mode):
-        ex, obs = execute(threads, case["schedule"])
+        ex, obs = execute(threads, case["schedule"], warm)
         if ex.error:
             raise sched.HarnessError(ex.error)
-        ex2, obs2 = execute(threads, case["schedule"])
+        ex2, obs2 = execute(threads, case["schedule"], warm)
         if ex2.fingerprint() != ex.fingerprint() or obs2 != obs:
             raise sched.HarnessError("replay diverged: nondeterminism not owned")
-    v, label = judge(threads, obs)
+    v, label = judge(threads, obs, warm)
     acc.case(nontrivial=bool(ex.preempt_in_cs), outcome=label)
     acc.trans(ex.nsteps)
     if v is not None:
